@@ -14,6 +14,7 @@ import (
 	"sort"
 	"strings"
 	"sync"
+	"time"
 
 	"github.com/octohelm/gengo/pkg/gengo"
 	"github.com/octohelm/gengo/pkg/gengo/snippet"
@@ -59,7 +60,7 @@ const (
 	dottedPath = "verif/harness/internal/fixt/sub/dotted.v3"
 )
 
-var pkgIDOf = map[string]string{fixtPath: "fixt", fixt2Path: "fixt2", clashPath: "clash", subjsonPath: "subjson", stdjsonPath: "stdjson", dottedPath: "dotted"}
+var pkgIDOf = map[string]string{fixtPath: "fixt", fixt2Path: "fixt2", clashPath: "clash", subjsonPath: "subjson", stdjsonPath: "stdjson", dottedPath: "dotted", "time": "stdtime"}
 
 var (
 	fixtOnce sync.Once
@@ -115,7 +116,9 @@ func leafTypes(u *gengotypes.Universe, id string) (types.Type, error) {
 		return namedOf(u, subjsonPath, "J")
 	case "stdjson.RawMessage":
 		return namedOf(u, stdjsonPath, "RawMessage")
-	case "fixt.Gen[int]", "fixt.Gen[fixt.A]", "fixt.Gen[fixt2.B]", "fixt.Gen[dotted.D]":
+	case "fixt.PA":
+		return namedOf(u, fixtPath, "PA")
+	case "fixt.Gen[int]", "fixt.Gen[fixt.A]", "fixt.Gen[fixt2.B]", "fixt.Gen[dotted.D]", "fixt.Gen[stdtime.Duration]":
 		g, err := namedOf(u, fixtPath, "Gen")
 		if err != nil {
 			return nil, err
@@ -133,6 +136,11 @@ func leafTypes(u *gengotypes.Universe, id string) (types.Type, error) {
 		}
 		if id == "fixt.Gen[dotted.D]" {
 			if arg, err = namedOf(u, dottedPath, "D"); err != nil {
+				return nil, err
+			}
+		}
+		if id == "fixt.Gen[stdtime.Duration]" { // the argument's import path has ONE element
+			if arg, err = namedOf(u, "time", "Duration"); err != nil {
 				return nil, err
 			}
 		}
@@ -169,6 +177,10 @@ func leafReflect(id string) (reflect.Type, error) {
 		return reflect.TypeOf(fixt.Gen[fixt2.B]{}), nil
 	case "fixt.Gen[dotted.D]":
 		return reflect.TypeOf(fixt.Gen[dotted.D]{}), nil
+	case "fixt.Gen[stdtime.Duration]":
+		return reflect.TypeOf(fixt.Gen[time.Duration]{}), nil
+	case "fixt.PA":
+		return reflect.TypeOf(fixt.PA(nil)), nil
 	case "subjson.J":
 		return reflect.TypeOf(subjson.J{}), nil
 	case "stdjson.RawMessage":
@@ -177,7 +189,7 @@ func leafReflect(id string) (reflect.Type, error) {
 	return nil, fmt.Errorf("unknown leaf %q", id)
 }
 
-const tlTag = `json:"f,omitempty" x:"1" layout:"%Y-%m-%d 100%"`
+const tlTag = ` json:"f,omitempty" x:"1" layout:"%Y-%m-%d 100%" ` // (a tag is compared verbatim: the blanks at its ends are part of it)
 
 func embeddedName(t types.Type) string {
 	if n, ok := t.(*types.Named); ok {
